@@ -133,7 +133,8 @@ add("C16", "other",
     "the OTHER axes) of the chosen axis' coefficients to the statistics (additivity), keeps the class invariant (integer count, non-negative "
     "squares) and raises ValueError before writing on a length mismatch; apply returns (x - mean) * k per coefficient of the chosen axis with "
     "the accumulated moments or - without statistics - the tensor's own, float64, the input object only when in_place and float64; have_stats "
-    "is true iff a vector was accumulated. Rank 4, the single-vector / zero-variance corners and dtype round-off are bounded." + MIX, TB)
+    "is true iff a vector was accumulated; the public accumulate / apply raise ValueError on an array without elements and otherwise call exactly "
+    "the vector (rank 1) or tensor (rank > 1) routine once with the caller's arguments. Rank 4, the single-vector / zero-variance corners and dtype round-off are bounded." + MIX, TB)
 add("C17", "other",
     "Proved: every statistics state reachable through accumulate satisfies the invariant under which _sanitize_stats's validity test (read from the "
     "source) accepts it on the first pass; the .npy / .npz / raw readers the reload goes through load exactly the given file and, for .npz, the "
